@@ -128,6 +128,10 @@ EndChecks(tr, i) ==
                /\ Report(Len(e.tasktable) = Card(DOMAIN X.tasks)
                          /\ Card({e.tasktable[j].id : j \in 1..Len(e.tasktable)}) = Len(e.tasktable),
                          "L1", i, "C04.table")
+               /\ Report(\A j \in 1..Len(e.tasktable) :
+                            LET r == e.tasktable[j]  t == <<r.o, r.k>>
+                            IN t \in DOMAIN X.tasks /\ r.ast = X.tasks[t].ast /\ r.aft = X.tasks[t].aft,
+                         "L1", i, "C04.tablerows")
                /\ Report(End_C07(X), "L1", i, "C07.end")
                /\ Report(Len(e.rows) = e.t \div K, "L1", i, "C12.rows")
                /\ Report(End_C13_complete(e.log), "L1", i, "C13.complete")
